@@ -45,6 +45,47 @@ def gen_value(r, depth=3, profile="json", width=4):
     return d
 
 
+def gen_renamed_dicts(r):
+    """Two mappings in which (nearly) all keys are renamed, with values that mix very short and long, mostly
+    dissimilar strings: the weighted bipartite matcher (not key auto-matching) has to pair them, and the edit-distance
+    ranges of the candidate pairs separate long before they are definitive."""
+    def s(n, alpha):
+        return "".join(r.choice(alpha) for _ in range(n))
+    n = r.choice([2, 3, 3, 4])
+    ka = r.sample(["a", "ab", "aaa", "k", "id", "name", "x y"], n)
+    kb = r.sample(["bc", "bac", "baa", "q", "key", "title", "z"], r.choice([n, n, max(1, n - 1), n + 1]))
+    lens = [1, 1, 2, 3, 11, 17, 22]
+    a = {k: s(r.choice(lens), r.choice(["abc", "ab", "xyzw"])) for k in ka}
+    b = {}
+    for k in kb:
+        if a and r.random() < 0.4:
+            src = r.choice(list(a.values()))
+            b[k] = src if r.random() < 0.3 else src[:max(1, len(src) // 2)] + s(r.choice([0, 1, 5]), "abz")
+        else:
+            b[k] = s(r.choice(lens), r.choice(["abc", "ab", "xyzw"]))
+    if r.random() < 0.3:
+        return [a, 1], [b, 1]
+    return a, b
+
+
+def type_twin(r, v):
+    """The same document with scalars replaced by equal-but-differently-typed values (1 <-> 1.0 <-> true,
+    0 <-> 0.0 <-> false, 100 <-> 100.0): legal, unusual, and equal under == and hash()."""
+    if isinstance(v, list):
+        return [type_twin(r, x) for x in v]
+    if isinstance(v, dict):
+        return {k: type_twin(r, x) for k, x in v.items()}
+    if isinstance(v, bool):
+        return (1 if v else 0) if r.random() < 0.6 else (1.0 if v else 0.0)
+    if isinstance(v, int) and r.random() < 0.7:
+        if v in (0, 1) and r.random() < 0.5:
+            return bool(v)
+        return float(v)
+    if isinstance(v, float) and v == int(v) and r.random() < 0.7:
+        return int(v)
+    return v
+
+
 def gen_container(r, depth=3, profile="json", width=4):
     for _ in range(20):
         v = gen_value(r, depth, profile, width)
